@@ -70,6 +70,10 @@ func parseOptions() options {
 		}
 	}
 
+	if len(args)%2 == 0 {
+		panic(fmt.Errorf("option %s has no value", args[len(args)-1]))
+	}
+
 	if len(options.in) == 0 {
 		panic("no input file provided (-i/--in)")
 	} else if len(options.out) == 0 {
